@@ -756,6 +756,10 @@ class Database(SQLiteMixin):
         for txi in tx.inputs:
             if txi.txo_ref.txo is not None:
                 txo = txi.txo_ref.txo
+                try:
+                    txo.script.template
+                except ValueError:
+                    continue  # spends a third-party output with a script matching no template
                 if txo.has_address and txo.get_address(self.ledger) == address:
                     is_my_input = True
                     conn.execute(*self._insert_sql("txi", {
